@@ -275,7 +275,7 @@ def shard(tier, seed, n, which):
 
 def run(tier, seed):
     t0 = time.time()
-    total = 2000 if tier == 'quick' else 60000
+    total = 4800 if tier == 'quick' else 60000
     seeds = common.shard_seeds(seed, common.NPROC)
     jobs = [dict(tier=tier, seed=0, n=0, which='regression')]
     jobs += [dict(tier=tier, seed=s, n=total // len(seeds), which='server' if i % 3 == 2 else 'client') for i, s in enumerate(seeds)]
